@@ -10,13 +10,14 @@
 //!
 //! Byte strings are printed packed (7 bytes per uint63 literal, `B len [...]`), long ones are
 //! `let`-bound once per trace.
-use soroban_sdk::{contract, contractimpl, testutils::Ledger as _, xdr::{FromXdr, ToXdr}, Bytes, BytesN, Env};
+use soroban_sdk::{contract, contractimpl, testutils::Ledger as _, xdr::{FromXdr, ToXdr}, Address, Bytes, BytesN, Env, IntoVal, Symbol, Val};
 use std::collections::HashMap;
 use std::ops::Bound;
 use stellar_accounts::verifiers::{
     ed25519,
     utils::{base64_url_encode, extract_from_bytes},
     webauthn::{self, ClientDataJson, WebAuthnSigData, AUTHENTICATOR_DATA_MIN_LEN, CLIENT_DATA_MAX_LEN},
+    VerifierClient,
 };
 use vh::*;
 
@@ -41,6 +42,13 @@ impl Lib {
         let s = bv(&src);
         base64_url_encode(&mut dst, &s);
         Bytes::from_slice(&e, &dst)
+    }
+    /// base64_url_encode into a caller-supplied buffer that is NOT zeroed
+    pub fn b64f(e: Env, dst: Bytes, src: Bytes) -> Bytes {
+        let mut d = bv(&dst);
+        let s = bv(&src);
+        base64_url_encode(&mut d, &s);
+        Bytes::from_slice(&e, &d)
     }
     pub fn extract32(e: Env, data: Bytes, sk: u32, s: u32, ek: u32, en: u32) -> Option<BytesN<32>> {
         extract_from_bytes::<32>(&e, &data, (bnd(sk, s), bnd(ek, en)))
@@ -82,6 +90,21 @@ impl Lib {
     }
     pub fn ed(e: Env, payload: Bytes, key: BytesN<32>, sig: BytesN<64>) -> bool {
         ed25519::verify(&e, &payload, &key, &sig)
+    }
+}
+
+/// A contract that consults a verifier the way smart_account::authenticate does with an external signer:
+/// a cross-contract call of `verify(hash, key_data, sig_data)` with the arguments as plain `Val`s, trapping
+/// unless the answer is `true`.  The verifier is then invoked BY A CONTRACT (not by the test's top level) and
+/// through the generic interface (no argument types known to the caller).
+#[contract]
+pub struct Fwd;
+#[contractimpl]
+impl Fwd {
+    pub fn auth(e: Env, verifier: Address, hash: Val, key_data: Val, sig_data: Val) -> bool {
+        let ok: bool = e.invoke_contract(&verifier, &Symbol::new(&e, "verify"), soroban_sdk::vec![&e, hash, key_data, sig_data]);
+        if !ok { panic!("ExternalVerificationFailed") }
+        true
     }
 }
 
@@ -341,6 +364,8 @@ impl Tr {
     }
     fn push(&mut self, out: &mut Out, label: &str, call: String, res: String) {
         out.case(label, &call);
+        // C18_ORDER=1: the label of every call in order (to name the call a replay file points at)
+        if std::env::var("C18_ORDER").is_ok() { eprintln!("ORDER call#{} {} -> {}", self.items.len() + 1, label, if res == "Fail" { "Fail" } else { "Ok" }); }
         self.items.push(pair(&call, &res));
     }
     /// the trace term: a table of the byte strings used, looked up by index (`v i`)
@@ -351,6 +376,7 @@ impl Tr {
                         CLIENT_DATA_MAX_LEN, AUTHENTICATOR_DATA_MIN_LEN, list(&self.items),
                         if self.defs.is_empty() { "(@nil (list Z))".to_string() } else { list(&self.defs) });
         let n = self.items.len();
+        if std::env::var("C18_ORDER").is_ok() { eprintln!("ORDER == end of trace ({} calls): {}", n, desc); }
         out.trace(desc, s, n);
         *self = Tr::new();
     }
@@ -366,11 +392,20 @@ struct Asn { payload: Vec<u8>, key: Vec<u8>, sig: Vec<u8>, ad: Vec<u8>, cd: Vec<
              /// the signature was produced over sha256(ad ++ sha256(cd)) with the secret key of `key` and nothing was changed since
              signed: bool }
 
+/// how an example verifier contract is reached: from the test's top level, or by the forwarder contract.
+/// Both go through the GENERIC interface `verify(hash: Bytes, key_data: Val, sig_data: Val)` - the client the
+/// smart account uses (stellar_accounts::verifiers::VerifierClient) - so that the harness does not depend on the
+/// contracts' associated KeyData / SigData types and can hand over values of any length or type.
+#[derive(Clone, Copy, PartialEq)]
+enum Via { Top, Fwd }
 struct Ctx<'a> {
     e: &'a Env,
     lib: LibClient<'a>,
-    wa: wa_ex::WebauthnVerifierContractClient<'a>,
-    ed: ed_ex::Ed25519VerifierContractClient<'a>,
+    wa: VerifierClient<'a>,
+    ed: VerifierClient<'a>,
+    fwd: FwdClient<'a>,
+    wa_id: Address,
+    ed_id: Address,
 }
 
 fn rbytes(rng: &mut Rng, n: usize) -> Vec<u8> { (0..n).map(|_| rng.next_u64() as u8).collect() }
@@ -498,6 +533,9 @@ fn wa_lib(cx: &Ctx, tr: &mut Tr, out: &mut Out, kind: &str, a: &Asn, expect: Opt
 /// the example contract: key_data = key ++ credential id, sig_data = XDR bytes.  `signed`: the signature inside
 /// sig_data is a genuine one for the first 65 bytes of key_data over the authenticator / client data inside.
 fn wa_ex_raw(cx: &Ctx, tr: &mut Tr, out: &mut Out, kind: &str, payload: &[u8], key_data: &[u8], sig_data: &Bytes, expect: Option<bool>, signed: bool) {
+    wa_ex_via(cx, tr, out, Via::Top, kind, payload, key_data, sig_data, expect, signed)
+}
+fn wa_ex_via(cx: &Ctx, tr: &mut Tr, out: &mut Out, via: Via, kind: &str, payload: &[u8], key_data: &[u8], sig_data: &Bytes, expect: Option<bool>, signed: bool) {
     let e = cx.e;
     let sdv = bv(sig_data);
     // the decoding oracle handed to the model: the SDK's from_xdr (run in a helper contract)
@@ -514,9 +552,13 @@ fn wa_ex_raw(cx: &Ctx, tr: &mut Tr, out: &mut Out, kind: &str, payload: &[u8], k
         None => Some(false),
         Some((sig, ad, cd)) => spec_expect(&Asn { payload: payload.to_vec(), key: key.clone(), sig: sig.clone(), ad: ad.clone(), cd: cd.clone(), signed }, key_data.len() >= 65),
     });
-    let (res, tag) = res_bool(cx.wa.try_verify(&Bytes::from_slice(e, payload), &Bytes::from_slice(e, key_data), sig_data));
+    let (p, k, s) = (Bytes::from_slice(e, payload), Bytes::from_slice(e, key_data).to_val(), sig_data.to_val());
+    let (res, tag) = match via {
+        Via::Top => res_bool(cx.wa.try_verify(&p, &k, &s)),
+        Via::Fwd => res_bool(cx.fwd.try_auth(&cx.wa_id, &p.to_val(), &k, &s)),
+    };
     let call = format!("WaEx {} {} {} {}", tr.bs(key_data), tr.bs(&sdv), b(dec.is_some()), asn_term(tr, &a, expect));
-    tr.push(out, &format!("wa-ex/{}/{}", kind, tag), call, res);
+    tr.push(out, &format!("{}/{}/{}", if via == Via::Top { "wa-ex" } else { "wa-fwd" }, kind, tag), call, res);
 }
 fn wa_ex(cx: &Ctx, tr: &mut Tr, out: &mut Out, kind: &str, a: &Asn, expect: Option<bool>) {
     let e = cx.e;
@@ -525,6 +567,14 @@ fn wa_ex(cx: &Ctx, tr: &mut Tr, out: &mut Out, kind: &str, a: &Asn, expect: Opti
     // the same credential id for the whole trace: key_data of a corrupted assertion equals that of the genuine one
     let kd = [&a.key[..], &tr.cred.clone()[..]].concat();
     wa_ex_raw(cx, tr, out, kind, &a.payload, &kd, &sd.to_xdr(e), expect, a.signed);
+}
+/// the same through the forwarder contract (the verifier is invoked by a contract)
+fn wa_fwd(cx: &Ctx, tr: &mut Tr, out: &mut Out, kind: &str, a: &Asn, expect: Option<bool>) {
+    let e = cx.e;
+    let sig: [u8; 64] = a.sig.clone().try_into().expect("64-byte sig");
+    let sd = WebAuthnSigData { signature: BytesN::from_array(e, &sig), authenticator_data: Bytes::from_slice(e, &a.ad), client_data: Bytes::from_slice(e, &a.cd) };
+    let kd = [&a.key[..], &tr.cred.clone()[..]].concat();
+    wa_ex_via(cx, tr, out, Via::Fwd, kind, &a.payload, &kd, &sd.to_xdr(e), expect, a.signed);
 }
 /// one assertion: through BOTH entry points the first time a kind occurs in a trace (so that every
 /// wa-lib/... and wa-ex/... label is hit deterministically) or when `both`; afterwards through one of them
@@ -537,15 +587,39 @@ fn wa_any(cx: &Ctx, tr: &mut Tr, out: &mut Out, rng: &mut Rng, kind: &str, a: &A
     } else if rng.chance(1, 2) { wa_lib(cx, tr, out, kind, a, expect); } else { wa_ex(cx, tr, out, kind, a, expect); }
 }
 
+#[derive(Clone, Copy, PartialEq)]
+enum EdVia { Lib, Ex, Fwd }
 fn ed_call(cx: &Ctx, tr: &mut Tr, out: &mut Out, via_ex: bool, kind: &str, payload: &[u8], key: &[u8], sig: &[u8], expect: Option<bool>) {
+    ed_gen(cx, tr, out, if via_ex { EdVia::Ex } else { EdVia::Lib }, kind, payload, key, sig, expect)
+}
+/// key / sig of any length for the contract entries (generic interface); the library function takes BytesN<32> / BytesN<64>
+fn ed_gen(cx: &Ctx, tr: &mut Tr, out: &mut Out, via: EdVia, kind: &str, payload: &[u8], key: &[u8], sig: &[u8], expect: Option<bool>) {
     let e = cx.e;
-    let k: [u8; 32] = key.to_vec().try_into().expect("32-byte key");
-    let s: [u8; 64] = sig.to_vec().try_into().expect("64-byte sig");
     let sigok = ed_oracle(key, payload, sig);
-    let (p, k, s) = (Bytes::from_slice(e, payload), BytesN::from_array(e, &k), BytesN::from_array(e, &s));
-    let (res, tag) = if via_ex { res_bool(cx.ed.try_verify(&p, &k, &s)) } else { res_bool(cx.lib.try_ed(&p, &k, &s)) };
-    let call = format!("{} {} {} {} {} {}", if via_ex { "EdEx" } else { "EdLib" }, tr.bs(payload), tr.bs(key), tr.bs(sig), b(sigok), ob(expect));
-    tr.push(out, &format!("{}/{}/{}", if via_ex { "ed-ex" } else { "ed-lib" }, kind, tag), call, res);
+    let p = Bytes::from_slice(e, payload);
+    let (res, tag) = match via {
+        EdVia::Lib => {
+            let k: [u8; 32] = key.to_vec().try_into().expect("32-byte key");
+            let s: [u8; 64] = sig.to_vec().try_into().expect("64-byte sig");
+            res_bool(cx.lib.try_ed(&p, &BytesN::from_array(e, &k), &BytesN::from_array(e, &s)))
+        }
+        EdVia::Ex => res_bool(cx.ed.try_verify(&p, &Bytes::from_slice(e, key).to_val(), &Bytes::from_slice(e, sig).to_val())),
+        EdVia::Fwd => res_bool(cx.fwd.try_auth(&cx.ed_id, &p.to_val(), &Bytes::from_slice(e, key).to_val(), &Bytes::from_slice(e, sig).to_val())),
+    };
+    let call = format!("{} {} {} {} {} {}", if via == EdVia::Lib { "EdLib" } else { "EdEx" }, tr.bs(payload), tr.bs(key), tr.bs(sig), b(sigok), ob(expect));
+    tr.push(out, &format!("{}/{}/{}", match via { EdVia::Lib => "ed-lib", EdVia::Ex => "ed-ex", EdVia::Fwd => "ed-fwd" }, kind, tag), call, res);
+}
+/// a call of an example verifier (which: 0 = Ed25519, 1 = WebAuthn) with an argument that is not of the declared
+/// type; the other two arguments are those of a genuine assertion.  shape = 100 * position + type code.
+fn bad_arg(cx: &Ctx, tr: &mut Tr, out: &mut Out, which: u32, via: Via, shape: u32, hash: Val, key: Val, sig: Val) {
+    let e = cx.e;
+    let id = if which == 0 { &cx.ed_id } else { &cx.wa_id };
+    let (res, tag) = match via {
+        Via::Top => res_bool(e.try_invoke_contract::<bool, soroban_sdk::Error>(id, &Symbol::new(e, "verify"), soroban_sdk::vec![e, hash, key, sig])),
+        Via::Fwd => res_bool(cx.fwd.try_auth(id, &hash, &key, &sig)),
+    };
+    let call = format!("BadArg {} {}", which, shape);
+    tr.push(out, &format!("{}-{}/bad-arg/{}", if which == 0 { "ed" } else { "wa" }, if via == Via::Top { "ex" } else { "fwd" }, tag), call, res);
 }
 
 // malformed / alternative XDR shapes for the example contract's sig_data
@@ -644,6 +718,8 @@ fn wa_trace(cx: &Ctx, out: &mut Out, rng: &mut Rng, thorough: bool, idx: usize) 
         ("msg-cd-hash", sh(&cd)),
         ("msg-other-cd", wa_message_digest(&ad, &cd2)),
         ("msg-ad-payload", sh(&cat(&ad, &payload))),
+        // the same client data with another authenticator data (rpIdHash differs in one bit)
+        ("msg-other-ad", { let mut adb = ad.clone(); adb[0] ^= 1; wa_message_digest(&adb, &cd) }),
     ];
     for (k, d) in alts { let mut a = g.clone(); a.sig = p256_sign(&sk, &d); wa_any(cx, tr, out, rng, k, &a, no, false); }
 
@@ -768,6 +844,80 @@ fn wa_trace(cx: &Ctx, out: &mut Out, rng: &mut Rng, thorough: bool, idx: usize) 
     wa_ex_raw(cx, tr, out, "xdr-empty", &payload, &pk, &Bytes::new(e), no, true);
     { let v = bv(&good); wa_ex_raw(cx, tr, out, "xdr-truncated", &payload, &pk, &Bytes::from_slice(e, &v[..v.len() - 4]), no, true); }
     { let mut v = bv(&good); v.extend_from_slice(&[0, 0, 0, 0]); wa_ex_raw(cx, tr, out, "xdr-trailing", &payload, &pk, &Bytes::from_slice(e, &v), None, true); }
+    // ---------------------------------------------------------------------------------------------------------
+    // round 4: situations of the classes K2 (unusual but legal values), K5 (aliasing), K6 (histories), K3/K1 (the
+    // verifier invoked by another contract through the generic interface); one label per situation, all deterministic
+    // ---------------------------------------------------------------------------------------------------------
+    // K5: the bytes payload ++ key_data ++ sig_data of the genuine call accepted at the start of the trace, cut at
+    // other places (an approval remembered under a hash of the concatenation would be found again)
+    {
+        let kd_full = [&pk[..], &tr.cred.clone()[..]].concat();
+        let gv = bv(&good);
+        wa_ex_raw(cx, tr, out, "concat-shift", &[&payload[..], &kd_full[..1]].concat(), &kd_full[1..], &good, no, false);
+        wa_ex_raw(cx, tr, out, "concat-shift", &payload[..31], &[&payload[31..], &kd_full[..]].concat(), &good, no, false);
+        wa_ex_raw(cx, tr, out, "concat-shift", &payload, &[&kd_full[..], &gv[..1]].concat(), &Bytes::from_slice(e, &gv[1..]), no, false);
+    }
+    // K2: long authenticator data (attested credential data / extensions follow the counter), genuine
+    for n in [256usize, 257, 1000 + rng.below(48) as usize, 4096] {
+        let ad2 = make_ad(rng, flags, n.max(min_ad));
+        let a = sign_asn(&sk, &pk, &payload, &ad2, &cd);
+        wa_any(cx, tr, out, rng, "ad-len-large", &a, Some(true), true);
+    }
+    // K2: degenerate keys and signatures
+    for (k, key2) in [("key-zero", vec![0u8; 65]), ("key-ones", vec![0xFFu8; 65])] { let mut a = g.clone(); a.key = key2; wa_any(cx, tr, out, rng, k, &a, no, true); }
+    for (k, sig2) in [("sig-ones", vec![0xFFu8; 64]), ("sig-r-zero", [&[0u8; 32][..], &g.sig[32..]].concat()), ("sig-s-zero", [&g.sig[..32], &[0u8; 32][..]].concat())] {
+        let mut a = g.clone(); a.sig = sig2; wa_any(cx, tr, out, rng, k, &a, no, true);
+    }
+    // K2: the challenge differing from the expected one in exactly one character, at the first / second / a middle /
+    // the second-to-last position (the last one is in "challenge-changed"), signed again
+    for pos in [0usize, 1, 21, 41] {
+        let mut c = ch.clone().into_bytes(); c[pos] = if c[pos] == b'A' { b'B' } else { b'A' };
+        let a = sign_asn(&sk, &pk, &payload, &ad, &make_cd(style, "webauthn.get", &String::from_utf8(c).unwrap(), 0));
+        wa_any(cx, tr, out, rng, "challenge-pos", &a, no, true);
+    }
+    // K2: the signature counter (bytes 33..37) at u32::MAX and then at 0 - a counter going DOWN; both genuine
+    for (k, cnt) in [("signcount-max", [0xFFu8; 4]), ("signcount-zero", [0u8; 4])] {
+        let mut ad2 = make_ad(rng, flags, 37.max(min_ad)); ad2[..32].copy_from_slice(&ad[..32]); ad2[33..37].copy_from_slice(&cnt);
+        let a = sign_asn(&sk, &pk, &payload, &ad2, &cd);
+        wa_any(cx, tr, out, rng, k, &a, Some(true), true);
+    }
+    // K5: authenticator data and client data are the SAME byte string (byte 32 of this JSON text is 'e' = 0x65: UP, UV, no BS)
+    {
+        let c0 = make_cd(0, "webauthn.get", &ch, 0);
+        assert!(c0.len() >= 37 && flags_rule(c0[32]));
+        let a = sign_asn(&sk, &pk, &payload, &c0, &c0);
+        wa_any(cx, tr, out, rng, "alias-ad-cd", &a, Some(c0.len() >= min_ad.max(37)), true);
+    }
+    // K5: the payload is the x coordinate of the public key
+    {
+        let p2 = pk[1..33].to_vec();
+        let a = sign_asn(&sk, &pk, &p2, &ad, &make_cd(style, "webauthn.get", &String::from_utf8(b64url(&p2)).unwrap(), 0));
+        wa_any(cx, tr, out, rng, "alias-payload-key", &a, Some(true), true);
+    }
+    // K5 / K2: a credential id that is itself a public key: the same key twice (genuine), and a second key whose owner
+    // signed (only the FIRST 65 bytes are the key)
+    {
+        wa_ex_raw(cx, tr, out, "key-data-twice", &payload, &[&pk[..], &pk[..]].concat(), &good, Some(true), true);
+        let s2: [u8; 64] = p256_sign(&sk2, &wa_message_digest(&ad, &cd)).try_into().unwrap();
+        let sd2 = WebAuthnSigData { signature: BytesN::from_array(e, &s2), authenticator_data: adb.clone(), client_data: cdb.clone() }.to_xdr(e);
+        wa_ex_raw(cx, tr, out, "key-data-second-key", &payload, &[&pk[..], &pk2[..]].concat(), &sd2, no, false);
+    }
+    // K6: a key never seen before whose FIRST assertion is a corrupted one, then its genuine one
+    {
+        let (sk3, pk3) = p256_key(rng);
+        let g3 = sign_asn(&sk3, &pk3, &payload, &ad, &cd);
+        let mut bad = g3.clone(); bad.sig[63] ^= 1;
+        wa_any(cx, tr, out, rng, "fresh-corrupted-first", &bad, no, true);
+        wa_any(cx, tr, out, rng, "fresh-genuine-after", &g3, Some(true), true);
+    }
+    // K3 / K1: the verifier invoked by another contract (as smart_account::authenticate does), arguments as plain Vals
+    {
+        wa_fwd(cx, tr, out, "genuine", &g, Some(true));
+        { let mut a = g.clone(); a.sig[0] ^= 0x80; wa_fwd(cx, tr, out, "sig-bit", &a, no); }
+        { let mut a = g.clone(); a.payload[0] ^= 1; wa_fwd(cx, tr, out, "payload-bit", &a, no); }
+        { let mut ad2 = ad.clone(); ad2[32] = flags & !4; let a = sign_asn(&sk, &pk, &payload, &ad2, &cd); wa_fwd(cx, tr, out, "flags-invalid", &a, Some(false)); }
+        wa_ex_via(cx, tr, out, Via::Fwd, "key-data-short", &payload, &pk[..64], &good, no, true);
+    }
     // statelessness: the same genuine assertion is accepted again after all of the above and after a long ledger gap
     e.ledger().with_mut(|l| l.sequence_number += [20u32, 100, 17281, 20000, 600000, 4000000][idx % 6]);
     wa_any(cx, tr, out, rng, "genuine-again", &g, Some(true), true);
@@ -811,6 +961,45 @@ fn ed_trace(cx: &Ctx, out: &mut Out, rng: &mut Rng, n: usize) {
         // order-4 key, R = that point, S = 0: valid under RFC 8032's cofactored equation for every message, rejected by
         // strict verification - the text ("a valid signature") does not decide
         { let v = via(rng); ed_call(cx, tr, out, v, "key-small-order-cofactored", &p, &[0u8; 32], &[0u8; 64], None); }
+        // ---- round 4: K2 boundary / large payloads (genuine), K5 aliasing, K2 degenerate key / signature, K1 the
+        // verifier's own contract id as key, K3 the generic interface (any length) from the top level and from a
+        // contract, K6 a fresh key whose first signature is a corrupted one ----
+        let alt = |k: usize| if (k + i) % 2 == 0 { EdVia::Ex } else { EdVia::Lib };
+        let bp = if i % 2 == 0 { vec![0u8; 32] } else { vec![0xFFu8; 32] };
+        let bsig = sk.sign(&bp).to_bytes().to_vec();
+        ed_gen(cx, tr, out, EdVia::Lib, "genuine-boundary-payload", &bp, &pk, &bsig, Some(true));
+        ed_gen(cx, tr, out, EdVia::Ex, "genuine-boundary-payload", &bp, &pk, &bsig, Some(true));
+        let ln = [1024usize, 1025, 4096, 255, 256, 257, 65, 10000][i % 8];
+        let lp = rbytes(rng, ln);
+        let lsig = sk.sign(&lp).to_bytes().to_vec();
+        ed_gen(cx, tr, out, EdVia::Lib, "genuine-large-payload", &lp, &pk, &lsig, Some(true));
+        ed_gen(cx, tr, out, EdVia::Ex, "genuine-large-payload", &lp, &pk, &lsig, Some(true));
+        { let mut q = lp.clone(); *q.last_mut().unwrap() ^= 1; ed_gen(cx, tr, out, alt(0), "large-payload-bit", &q, &pk, &lsig, no); }
+        let asig = sk.sign(&pk).to_bytes().to_vec();
+        ed_gen(cx, tr, out, EdVia::Lib, "alias-payload-key", &pk, &pk, &asig, Some(true));
+        ed_gen(cx, tr, out, EdVia::Ex, "alias-payload-key", &pk, &pk, &asig, Some(true));
+        ed_gen(cx, tr, out, alt(1), "alias-sig-key-key", &p, &pk, &[&pk[..], &pk[..]].concat(), no);
+        ed_gen(cx, tr, out, alt(0), "key-ones", &p, &[0xFFu8; 32], &sig, no);
+        ed_gen(cx, tr, out, alt(1), "sig-ones", &p, &pk, &[0xFFu8; 64], no);
+        { let idx = bv(&cx.ed_id.clone().to_xdr(cx.e)); let own = idx[idx.len() - 32..].to_vec(); ed_gen(cx, tr, out, alt(0), "key-own-contract-id", &p, &own, &sig, no); }
+        let gv = if i % 2 == 0 { EdVia::Ex } else { EdVia::Fwd };
+        ed_gen(cx, tr, out, gv, "key-len31", &p, &pk[..31], &sig, no);
+        ed_gen(cx, tr, out, gv, "key-len33", &p, &[&pk[..], &[0u8][..]].concat(), &sig, no);
+        ed_gen(cx, tr, out, gv, "sig-len63", &p, &pk, &sig[..63], no);
+        ed_gen(cx, tr, out, gv, "sig-len65", &p, &pk, &[&sig[..], &[0u8][..]].concat(), no);
+        ed_gen(cx, tr, out, EdVia::Fwd, "genuine", &p, &pk, &sig, Some(true));
+        ed_gen(cx, tr, out, EdVia::Fwd, "sig-bit", &p, &pk, &flip(rng, &sig), no);
+        ed_gen(cx, tr, out, EdVia::Fwd, "payload-append", &[&p[..], &[0u8][..]].concat(), &pk, &sig, no);
+        {
+            let sk3 = SigningKey::from_bytes(&rbytes(rng, 32).try_into().unwrap());
+            let pk3 = sk3.verifying_key().to_bytes().to_vec();
+            let s3 = sk3.sign(&p).to_bytes().to_vec();
+            let mut bad = s3.clone(); bad[63 - (i % 2) * 32] ^= 1;
+            ed_gen(cx, tr, out, EdVia::Lib, "fresh-corrupted-first", &p, &pk3, &bad, no);
+            ed_gen(cx, tr, out, EdVia::Ex, "fresh-corrupted-first", &p, &pk3, &bad, no);
+            ed_gen(cx, tr, out, EdVia::Lib, "fresh-genuine-after", &p, &pk3, &s3, Some(true));
+            ed_gen(cx, tr, out, EdVia::Ex, "fresh-genuine-after", &p, &pk3, &s3, Some(true));
+        }
         ed_call(cx, tr, out, via(rng), "genuine-again", &p, &pk, &sig, Some(true));
     }
     tr.flush(out, "ed25519: genuine signatures and corruptions");
@@ -844,6 +1033,32 @@ fn small_calls(cx: &Ctx, out: &mut Out, rng: &mut Rng, thorough: bool) {
         if n % 16 == 15 { tr.flush(out, "base64url: lengths, destination sizes"); }
     }
     tr.flush(out, "base64url: lengths, destination sizes");
+    // round 4 (K2): lengths around 2^k and k*64*3 (an index or length kept in a narrower integer, a fixed-size fast path)
+    for n in [127usize, 128, 129, 191, 192, 193, 255, 256, 257, 300, 767, 768, 1023, 1024] {
+        let src = rbytes(rng, n);
+        b64(&mut tr, out, "len-large", need(n), &src);
+        let src2: Vec<u8> = (0..n).map(|_| *rng.pick(&[0u8, 0xFF, 0xFB, 0xFE, 0x3E, 0x3F, 0xF8, 0x80, 0x01])).collect();
+        b64(&mut tr, out, "len-large", need(n) + 2, &src2);
+        b64(&mut tr, out, "short-dst", need(n) - 1, &src);
+    }
+    tr.flush(out, "base64url: long inputs");
+    // round 4 (K2): a destination buffer that is NOT zeroed (all ones, 'A's, random): the encoding must be written,
+    // not merged, and the rest left as it was
+    let b64f = |tr: &mut Tr, out: &mut Out, kind: &str, dst: &[u8], src: &[u8]| {
+        let r = cx.lib.try_b64f(&Bytes::from_slice(e, dst), &Bytes::from_slice(e, src));
+        let (res, tag) = match r { Ok(Ok(v)) => (format!("(Ok (OBytes {}))", tr.bs(&bv(&v))), "ok"), _ => ("Fail".to_string(), "fail") };
+        let call = format!("B64F {} {}", tr.bs(dst), tr.bs(src));
+        tr.push(out, &format!("b64/{}/{}", kind, tag), call, res);
+    };
+    for n in [0usize, 1, 2, 3, 4, 5, 6, 31, 32, 33] {
+        let src = rbytes(rng, n);
+        for (j, fill) in [0xFFu8, b'A', 0x80].into_iter().enumerate() {
+            b64f(&mut tr, out, "dst-filled", &std::vec![fill; need(n) + [0usize, 1, 3][j]], &src);
+        }
+        { let d = rbytes(rng, need(n) + 2); b64f(&mut tr, out, "dst-filled", &d, &src); }
+        if need(n) > 0 { b64f(&mut tr, out, "dst-filled-short", &std::vec![0xFFu8; need(n) - 1], &src); }
+    }
+    tr.flush(out, "base64url: destination buffer not zeroed");
     // all single bytes, and pairs / triples hitting every sextet value in every position
     for a in 0..=255u8 { b64(&mut tr, out, "len1mod3", 2, &[a]); }
     tr.flush(out, "base64url: all single bytes");
@@ -939,6 +1154,72 @@ fn small_calls(cx: &Ctx, out: &mut Out, rng: &mut Rng, thorough: bool) {
         if i % 20 == 19 { tr.flush(out, "type and challenge validators"); }
     }
     tr.flush(out, "type and challenge validators");
+    // round 4 (K2): the challenge with exactly one character changed, at every one of the 43 positions; the all-zero and
+    // all-ones payloads
+    {
+        let p = rbytes(rng, 32);
+        let good = b64url(&p);
+        for pos in 0..good.len() {
+            let mut c = good.clone(); c[pos] = if c[pos] == b'A' { b'B' } else { b'A' };
+            let okk = matches!(cx.lib.try_challenge(&Bytes::from_slice(e, &c), &Bytes::from_slice(e, &p)), Ok(Ok(())));
+            let call = format!("Challenge {} {}", tr.bs(&c), tr.bs(&p));
+            tr.push(out, &format!("challenge-pos/{}", if okk { "ok" } else { "fail" }), call, if okk { "(Ok OUnit)".into() } else { "Fail".into() });
+        }
+        for p in [vec![0u8; 32], vec![0xFFu8; 32]] {
+            let c = b64url(&p);
+            let okk = matches!(cx.lib.try_challenge(&Bytes::from_slice(e, &c), &Bytes::from_slice(e, &p)), Ok(Ok(())));
+            let call = format!("Challenge {} {}", tr.bs(&c), tr.bs(&p));
+            tr.push(out, &format!("challenge-boundary-payload/{}", if okk { "ok" } else { "fail" }), call, if okk { "(Ok OUnit)".into() } else { "Fail".into() });
+        }
+    }
+    tr.flush(out, "challenge validator: every position, boundary payloads");
+}
+
+/// round 4 (K3): the example contracts reached through the generic interface with an argument that is NOT of the declared
+/// type (Void, u32, Symbol, a Vec holding the right bytes, a String holding the right bytes, an Address, a bool) in each
+/// of the three positions, the other two arguments being those of a genuine assertion; from the top level and from a contract
+fn bad_arg_trace(cx: &Ctx, out: &mut Out, rng: &mut Rng) {
+    use ed25519_dalek::{Signer, SigningKey};
+    let e = cx.e;
+    let mut tr = Tr::new();
+    let tr = &mut tr;
+    // genuine arguments of the two verifiers
+    let payload = rbytes(rng, 32);
+    let esk = SigningKey::from_bytes(&rbytes(rng, 32).try_into().unwrap());
+    let epk = esk.verifying_key().to_bytes().to_vec();
+    let esig = esk.sign(&payload).to_bytes().to_vec();
+    let (sk, pk) = p256_key(rng);
+    let ad = make_ad(rng, 0x05, AUTHENTICATOR_DATA_MIN_LEN.max(37));
+    let cd = make_cd(0, "webauthn.get", &String::from_utf8(b64url(&payload)).unwrap(), 0);
+    let g = sign_asn(&sk, &pk, &payload, &ad, &cd);
+    let s64: [u8; 64] = g.sig.clone().try_into().unwrap();
+    let xdr = WebAuthnSigData { signature: BytesN::from_array(e, &s64), authenticator_data: Bytes::from_slice(e, &ad), client_data: Bytes::from_slice(e, &cd) }.to_xdr(e);
+    // the genuine ones are accepted through the same generic route
+    ed_gen(cx, tr, out, EdVia::Ex, "genuine", &payload, &epk, &esig, Some(true));
+    wa_ex_raw(cx, tr, out, "genuine", &payload, &pk, &xdr, Some(true), true);
+    for which in 0..2u32 {
+        let good: [Vec<u8>; 3] = if which == 0 { [payload.clone(), epk.clone(), esig.clone()] } else { [payload.clone(), pk.clone(), bv(&xdr)] };
+        for via in [Via::Top, Via::Fwd] {
+            for pos in 0..3usize {
+                for ty in 0..7u32 {
+                    let orig = Bytes::from_slice(e, &good[pos]);
+                    let bad: Val = match ty {
+                        0 => Val::VOID.to_val(),
+                        1 => 7u32.into_val(e),
+                        2 => Symbol::new(e, "verify").to_val(),
+                        3 => soroban_sdk::vec![e, orig.clone()].to_val(),
+                        4 => soroban_sdk::String::from_bytes(e, &good[pos]).to_val(),
+                        5 => cx.ed_id.to_val(),
+                        _ => true.into_val(e),
+                    };
+                    let mut args: [Val; 3] = [Bytes::from_slice(e, &good[0]).to_val(), Bytes::from_slice(e, &good[1]).to_val(), Bytes::from_slice(e, &good[2]).to_val()];
+                    args[pos] = bad;
+                    bad_arg(cx, tr, out, which, via, 100 * pos as u32 + ty, args[0], args[1], args[2]);
+                }
+            }
+        }
+    }
+    tr.flush(out, "example verifiers: arguments of another type through the generic interface");
 }
 
 fn main() {
@@ -956,7 +1237,9 @@ fn main() {
     let lib_id = e.register(Lib, ());
     let wa_id = e.register(wa_ex::WebauthnVerifierContract, ());
     let ed_id = e.register(ed_ex::Ed25519VerifierContract, ());
-    let cx = Ctx { e: &e, lib: LibClient::new(&e, &lib_id), wa: wa_ex::WebauthnVerifierContractClient::new(&e, &wa_id), ed: ed_ex::Ed25519VerifierContractClient::new(&e, &ed_id) };
+    let fwd_id = e.register(Fwd, ());
+    let cx = Ctx { e: &e, lib: LibClient::new(&e, &lib_id), wa: VerifierClient::new(&e, &wa_id), ed: VerifierClient::new(&e, &ed_id),
+                   fwd: FwdClient::new(&e, &fwd_id), wa_id: wa_id.clone(), ed_id: ed_id.clone() };
     // the harness's own SHA-256 against the host's
     for m in [&b""[..], &b"abc"[..], &[0x61u8; 119][..], &[7u8; 64][..], &[9u8; 55][..], &[1u8; 56][..]] {
         assert_eq!(sha256(m), e.crypto().sha256(&Bytes::from_slice(&e, m)).to_array(), "own SHA-256 disagrees with the host");
@@ -966,6 +1249,7 @@ fn main() {
     let thorough = out.cfg.thorough;
     let scale = out.cfg.scale as usize;
     small_calls(&cx, &mut out, &mut rng, thorough);
+    { let mut r = rng.fork(777); bad_arg_trace(&cx, &mut out, &mut r); }
     let nwa = if thorough { 64 } else { 14 } * scale;
     for i in 0..nwa { let mut r = rng.fork(i as u64); wa_trace(&cx, &mut out, &mut r, thorough, i); }
     let ned = if thorough { 24 } else { 6 } * scale;
